@@ -410,3 +410,12 @@ from vx import asyncfile_mutants_proposed as _AF
 for _src in (_AF.MUTANTS, _AF.MUTANTS_A1_REPAIR):
     for _k, _v in _src.items():
         MUTANTS.setdefault(_k, []).extend(_v)
+
+# ServerUtil::get_message_body (unit msgbody)
+MUTANTS.setdefault('C02', []).extend([
+    ('msgbody-wrong-header-size', 'src/api/server/mod.rs', "            .checked_sub(size_of::<InHeader>())\n            .and_then(|l| l.checked_sub(sub_hdr_sz))", "            .checked_sub(size_of::<OutHeader>())\n            .and_then(|l| l.checked_sub(sub_hdr_sz))"),
+])
+MUTANTS.setdefault('C01', []).extend([
+    ('msgbody-half-capacity', 'src/api/server/mod.rs', "let mut buf = Vec::<u8>::with_capacity(len);", "let mut buf = Vec::<u8>::with_capacity(len / 2);"),
+    ('msgbody-set-len-plus-one', 'src/api/server/mod.rs', "            buf.set_len(len)\n", "            buf.set_len(len + 1)\n"),
+])
